@@ -75,7 +75,8 @@ def property_checks(cfg):
     finite = bool(numpy.all(numpy.isfinite(M)))
     sc_ = float(numpy.max(numpy.abs(M[numpy.isfinite(M)]))) if numpy.isfinite(M).any() else 1.0
     S = scc.spec_matrix(cfg)
-    A(("entries = covariance of the finite-difference slopes/%s" % tag, float(numpy.max(numpy.abs(M - S)) / numpy.max(numpy.abs(S))) if finite else float("inf"), 2e-6))
+    A(("entries = covariance of the finite-difference slopes/%s" % tag, float(numpy.max(numpy.abs(M - S)) / numpy.max(numpy.abs(S))) if finite else float("inf"),
+       6e-6 if cfg.get("param_kind") == "float32" else 2e-6))      # float32 parameters: the coefficient 0.17253 (L0/r0)^(5/3) is itself formed in binary32 (worst seen 6e-7)
     A(("symmetric", float(numpy.max(numpy.abs(M - M.T)) / sc_) if finite else (0.0 if numpy.array_equal(numpy.isnan(M), numpy.isnan(M.T)) else 1.0), 0.0))
     if finite:
         ev = numpy.linalg.eigvalsh((M + M.T) / 2)
@@ -108,6 +109,14 @@ def property_checks(cfg):
             with scc.Controlled(lambda n: list(range(n))[::-1]):
                 Mt = make(cfg, threads=t_)
             A(("the matrix does not depend on the number of threads (%d)" % t_, 0.0 if numpy.array_equal(Mt, M) else float(numpy.max(numpy.abs(Mt - M)) / sc_ + 1e-30), 0.0))
+    # the object re-used for a second computation: parameters changed through the public attributes (new arrays, or written
+    # into the arrays the object holds) and the matrix rebuilt -- it must be the matrix of the current parameters
+    if finite:
+        import common
+        cfgB = scc.perturbed(cfg, common.Rng(int(abs(cfg.get("s", 1.7)) * 1e6) % (2 ** 30)))
+        for how in ("replace", "inplace"):
+            e_, _ = scc.reuse_error(cfg, cfgB, how=how)
+            A(("an object re-used after its parameters were changed (%s) gives the matrix of a fresh object" % how, e_, 0.0))
     s = cfg.get("s", 1.7)
     c2 = dict(cfg); c2["layers"] = [dict(l, r0=l["r0"] * s) for l in cfg["layers"]]
     M2 = make(c2)
@@ -134,6 +143,7 @@ def falsify(ctx, deep=False):
     for k in range(n):
         cfg = scc.gen_config(rng, "small" if k % 4 else "large", uniform=(k % 2 == 0))
         cfg["s"] = rng.uniform(0.5, 2.5)
+        cfg["param_kind"] = rng.choice([None, None, "list", "list", "float32"])       # how the caller holds the parameters
         try:
             res = property_checks(cfg)
         except Exception as ex:
